@@ -216,7 +216,8 @@ CHECKS = {
              "choice). Persistent stores are also stopped and reopened for the same machine (paced: one write in flight; burst), and Machine.Export/Import round-trips are checked for ticks, "
              "active states and MachineTick+1 under shuffled verified state orders.",
         note="The matching rule is asserted for one list at a time (both lists set: integrity only). Queries issued while a batch is pending are not judged (bbolt/badger answer from the "
-             "newest ID, which is not stored yet). The crash tier (SIGKILL at PRNG progress points) of the design was not built; reopen-after-clean-stop is. Eight known findings, all in "
+             "newest ID, which is not stored yet). Crash tier: a child process tracking a deterministic workload into a persistent store (paced: one write in flight) is killed with SIGKILL "
+             "at a PRNG-chosen Sync report; the store has to reopen, hold at least the records a query showed before the kill, and be a hole-free prefix of the reference. Eight known findings, all in "
              "the persistent backends (gorm never rotates; out-of-order machine-record writes in bursts; gorm's flags right after a reopen).",
         technique="runtime monitor: independent reference tracer + reference log/query evaluator, differential across four backends, reopen scenarios",
         engine="components", design_ref="5/C17"),
@@ -241,8 +242,8 @@ CHECKS = {
              "errored, after SetSchema and disposed, under recover and a watchdog that classifies a goroutine dump. Law cases compare S.* / SAdd / SRem / StatesDiff / StatesShared / "
              "ParseStates / Time.* against set references on PRNG lists; helper cases run AddSync/RemoveSync/Cant*/Ask*/WaitFor* on a machine with vetoing handlers and judge the result "
              "against what then happens to the machine; copy cases mutate every value a getter returns and compare a full snapshot of the machine; JSON cases feed the integration handlers.",
-        note="Argument domains are finite samples per type, not the full domain; package-level functions are covered by the directed law/helper/JSON cases, not by reflection (Go cannot "
-             "enumerate them at run time). Tuples that break a documented relation between arguments (IsTime with a time longer than its states, a Mutation index shorter than its called "
+        note="Argument domains are finite samples per type, not the full domain; package-level functions of pkg/machine, pkg/helpers and pkg/integrations are enumerated by a generator (go/parser, run before every build: c20gen) "
+             "and called reflectively with the same domains on a fresh and a disposed machine; generic functions cannot be referenced as values and are listed as skipped. Tuples that break a documented relation between arguments (IsTime with a time longer than its states, a Mutation index shorter than its called "
              "indexes, a nil *Event) are excluded and counted. The one timing-dependent scenario (WaitForAll's deadline) is guarded by a control timer and needs all counted trials to agree.",
         technique="runtime monitor: reflection-driven totality fuzzing under recover + watchdog, reference-model laws, copy-isolation snapshots",
         engine="registry", design_ref="5/C20"),
